@@ -854,7 +854,11 @@ class QueryBuilder(Selectable, Term):  # type:ignore[misc]
             self._on_conflict_do_updates.append(
                 (
                     field,
-                    update_value if isinstance(update_value, Term) else ValueWrapper(update_value),
+                    (
+                        update_value
+                        if isinstance(update_value, Term)
+                        else self._wrapper_cls(update_value)
+                    ),
                 )
             )
         else:
